@@ -1,20 +1,26 @@
 -------------------------- MODULE MC_CqlRequestE2E --------------------------
 (* Scenarios for the session-level half of C09: every way of issuing a request (unpaged / paged, unprepared / prepared / *)
 (* batch) x consistency x serial consistency x page size x explicit timestamp x tracing x bound values incl. null /   *)
-(* not-set / zero-length.                                                                                               *)
+(* not-set / zero-length; a caller-supplied paging state; a node that has forgotten the statement (the EXECUTE is sent  *)
+(* twice); a session that asked for compression the node does not offer.                                                *)
 EXTENDS Naturals, Sequences, TLC, Json
 Val(b) == [k |-> "val", b |-> b]
 NullC == [k |-> "null"]
 UnsetC == [k |-> "unset"]
 ValueLists == << <<Val(<<0, 0, 0, 1>>)>>, <<Val(<<97>>), NullC, UnsetC, Val(<< >>)>>, <<Val(<<255, 0>>), Val(<<1>>)>> >>
-Kinds == <<"query", "query_iter", "execute", "execute_iter", "batch">>
+Kinds == <<"query", "query_iter", "execute", "execute_iter", "batch", "query_page", "execute_page">>
 VARIABLE c
 Bit(m, i) == (m \div i) % 2
-Init == \E k \in 1..5 : \E mask \in 0..15 : \E cl \in {1, 4, 6, 10} : \E vl \in 1..3 : \E sv \in {8, 9} :
-          /\ (k \in {1, 2} => vl = 1)                                   \* unprepared statements are issued without values
-          /\ (cl + mask + vl + k) % 2 = 0 \/ mask \in {0, 15}            \* a covering half of the product
+\* ev: the node has forgotten the prepared statement (first EXECUTE answered UNPREPARED, the driver re-prepares and repeats it);
+\* cp: the session asked for compression, the node offers none; pg: the caller continues from a paging state
+Init == \E k \in 1..7 : \E mask \in 0..15 : \E cl \in {1, 4, 6, 10} : \E vl \in 1..3 : \E sv \in {8, 9} : \E ev \in {0, 1} : \E cp \in {0, 1} : \E pg \in {0, 1} :
+          /\ (k \in {1, 2, 6} => vl = 1)                                \* unprepared statements are issued without values
+          /\ (ev = 1 => k \in {3, 4, 7})
+          /\ (pg = 1 => k \in {6, 7})
+          /\ (cl + mask + vl + k + ev + cp + pg) % 2 = 0 \/ mask \in {0, 15}            \* a covering half of the product
           /\ c = [kind |-> Kinds[k], cl |-> cl, serial |-> <<Bit(mask, 1), sv>>, page |-> <<Bit(mask, 2), 7>>, ts |-> <<Bit(mask, 4), 1234567>>,
-                  tracing |-> Bit(mask, 8), idem |-> mask % 2, values |-> IF k \in {1, 2} THEN << >> ELSE ValueLists[vl], btype |-> mask % 3]
+                  tracing |-> Bit(mask, 8), idem |-> mask % 2, values |-> IF k \in {1, 2, 6} THEN << >> ELSE ValueLists[vl], btype |-> mask % 3,
+                  evict |-> ev, comp |-> cp, ps |-> <<pg, IF pg = 1 THEN <<1, 2, 255>> ELSE << >> >>]
 Next == UNCHANGED c
 Spec == Init /\ [][Next]_c
 Emit == PrintT(<<"SCEN", ToJson(c)>>)
